@@ -126,6 +126,31 @@ def midBody (song : Song) (m : SAMap) (srcT srcStart dstT : Nat) (dst : List Eve
   else if ty = ev_LOOP_START then J (s.2.2.2.1 + 1) s.2.2.2.2
   else J s.2.2.2.1 s.2.2.2.2
 
+/-- the body of the same-track loop: the stack test on the event before `dstPos` (repair of D18: the
+new loop would enclose every event of `[srcStart, dstPos)`), then `midBody` -/
+def midBodyS (song : Song) (m : SAMap) (sa : SA) (srcT srcStart dstT : Nat) (dst : List Event) (isBal : Nat → Bool)
+    (dstPos : Nat) (s : Match × Counter × Counter × Int × Bool) :
+    Except OErr (ForInStep (Match × Counter × Counter × Int × Bool)) :=
+  match sa.eventList[dstPos - 1]? with
+  | none => .error .stackListOOB
+  | some u =>
+    if u + sa.baseUsage ≥ maxLoopStack then
+      midBody song m srcT srcStart dstT dst isBal dstPos (s.1, s.2.1, s.2.2.1, s.2.2.2.1, false)
+    else midBody song m srcT srcStart dstT dst isBal dstPos s
+
+/-- `midBodyS` is `midBody` on a state that differs at most in `loop_valid` (cleared by the stack test) -/
+theorem midBodyS_cases {song : Song} {m : SAMap} {sa : SA} {srcT srcStart dstT : Nat} {dst : List Event}
+    {isBal : Nat → Bool} {dstPos : Nat} {s : Match × Counter × Counter × Int × Bool}
+    {r : ForInStep (Match × Counter × Counter × Int × Bool)}
+    (hr : midBodyS song m sa srcT srcStart dstT dst isBal dstPos s = .ok r) :
+    ∃ lv, midBody song m srcT srcStart dstT dst isBal dstPos (s.1, s.2.1, s.2.2.1, s.2.2.2.1, lv) = .ok r := by
+  unfold midBodyS at hr
+  split at hr
+  · cases hr
+  split at hr
+  · exact ⟨false, hr⟩
+  · exact ⟨s.2.2.2.2, hr⟩
+
 def otherBody (song : Song) (m : SAMap) (srcT srcStart dstT : Nat) (isBal : Nat → Bool)
     (dstPos : Nat) (s : Counter × Counter) : Except OErr (ForInStep (Counter × Counter)) :=
   findMatchLength song m srcT srcStart dstT dstPos false >>= fun x =>
@@ -137,12 +162,12 @@ def otherBody (song : Song) (m : SAMap) (srcT srcStart dstT : Nat) (isBal : Nat 
       else pure (ForInStep.yield (__s.1, __s.2.1, __s.2.2))) >>= fun r =>
     pure (ForInStep.yield (r.1, r.2.1))
 
-def trackBody (song : Song) (m : SAMap) (srcT srcStart : Nat) (isBal : Nat → Bool)
+def trackBody (song : Song) (m : SAMap) (sa : SA) (srcT srcStart : Nat) (isBal : Nat → Bool)
     (x : Nat × List Event) (s : Match × Counter) : Except OErr (ForInStep (Match × Counter)) :=
   if x.1 < srcT then pure (ForInStep.yield (s.1, s.2))
   else if x.1 = srcT then
     forIn (List.range' (srcStart + 1) (x.2.length - (srcStart + 1))) (s.1, s.2, ([] : Counter), (0 : Int), true)
-      (midBody song m srcT srcStart x.1 x.2 isBal) >>= fun r => pure (ForInStep.yield (r.1, r.2.1))
+      (midBodyS song m sa srcT srcStart x.1 x.2 isBal) >>= fun r => pure (ForInStep.yield (r.1, r.2.1))
   else
     forIn (List.range x.2.length) (s.2, ([] : Counter)) (otherBody song m srcT srcStart x.1 isBal)
       >>= fun r => pure (ForInStep.yield (s.1, r.1))
@@ -155,8 +180,9 @@ def finalBody (x : Nat × Nat) (mt : Match) : Except OErr (ForInStep Match) :=
 theorem findMatch_eq (song : Song) (m : SAMap) (srcT srcStart : Nat) (src : List Event)
     (hsrc : song.track? srcT = some src) :
     findMatch song m srcT srcStart =
-      (forIn song.tracks (({} : Match), ([] : Counter))
-        (trackBody song m srcT srcStart (fun len => ((balancedPrefixes src srcStart)[len]?).getD false)) >>= fun s =>
+      (sourcePrefixes (getSA m srcT) src srcStart >>= fun bal =>
+       forIn song.tracks (({} : Match), ([] : Counter))
+        (trackBody song m (getSA m srcT) srcT srcStart (fun len => (bal[len]?).getD false)) >>= fun s =>
        forIn ((s.2.toArray.qsort (fun a b => a.1 < b.1)).toList) { s.1 with trackId := srcT, position := srcStart }
         finalBody >>= fun r => pure r) := by
   unfold findMatch
@@ -170,8 +196,9 @@ theorem findMatch_eq (song : Song) (m : SAMap) (srcT srcStart : Nat) (src : List
 def LoopInv (song : Song) (m : SAMap) (srcT srcStart : Nat) (mt : Match) : Prop :=
   mt.loopLength = 0 ∨ (srcStart < mt.loopPosition ∧ minLoopScore ≤ mt.loopLength ∧
     (∃ len0, findMatchLength song m srcT srcStart srcT mt.loopPosition true = .ok (len0, mt.loopLength)) ∧
-    ∀ src, song.track? srcT = some src →
-      scan ((src.drop (srcStart + 1)).take (mt.loopPosition - srcStart)) 0 = some 0)
+    (∀ src, song.track? srcT = some src →
+      scan ((src.drop (srcStart + 1)).take (mt.loopPosition - srcStart)) 0 = some 0) ∧
+    ∀ i, srcStart ≤ i → i < mt.loopPosition → LoopRoom (getSA m srcT) i)
 
 theorem jp2Same_spec {isBal : Nat → Bool} {srcStart dstPos length0 : Nat} {subCount last : Counter}
     {ld : Int} {lv : Bool} {mt : Match} {r : ForInStep (Match × Counter × Counter × Int × Bool)}
@@ -228,24 +255,32 @@ theorem lookup_of_mem_nodup {β : Type} {l : List (Nat × β)} (hnd : (l.map (·
       simp only [List.lookup, this]
       exact ih hnd.2 h
 
+/-- while `loop_valid` holds, the first `n` events from `srcStart` have passed the stack test -/
+def RoomInv (sa : SA) (srcStart n : Nat) (lv : Bool) : Prop :=
+  lv = true → ∀ i, srcStart ≤ i → i < srcStart + n → LoopRoom sa i
+
 /-- the loop-validity bookkeeping of the same-track loop -/
 def MidInv (song : Song) (m : SAMap) (srcT srcStart : Nat) (dst : List Event) (pre : List Nat)
     (s : Match × Counter × Counter × Int × Bool) : Prop :=
   (LoopInv song m srcT srcStart s.1 ∧ s.1.subScore = 0) ∧
   (s.2.2.2.2 = true → ∃ dn : Nat, s.2.2.2.1 = (dn : Int) ∧
-    scan ((dst.drop (srcStart + 1)).take pre.length) 0 = some dn)
+    scan ((dst.drop (srcStart + 1)).take pre.length) 0 = some dn) ∧
+  RoomInv (getSA m srcT) srcStart pre.length s.2.2.2.2
 
+/-- `midBody` (the part of the loop body after the stack test): `hroom` is what the stack test of
+this iteration has established -/
 theorem midBody_step {song : Song} {m : SAMap} {srcT srcStart : Nat} {dst : List Event} {isBal : Nat → Bool}
     (hdst : song.track? srcT = some dst) {pre post : List Nat} {a : Nat}
     (hl : List.range' (srcStart + 1) (dst.length - (srcStart + 1)) = pre ++ a :: post)
     {s : Match × Counter × Counter × Int × Bool} (hinv : MidInv song m srcT srcStart dst pre s)
+    (hroom : RoomInv (getSA m srcT) srcStart (pre.length + 1) s.2.2.2.2)
     {r : ForInStep (Match × Counter × Counter × Int × Bool)}
     (hr : midBody song m srcT srcStart srcT dst isBal a s = .ok r) :
     ∃ b', r = .yield b' ∧ MidInv song m srcT srcStart dst (pre ++ [a]) b' := by
   obtain ⟨ha, hlt⟩ := range'_split hl
   obtain ⟨mt, sc, last, ld, lv⟩ := s
-  obtain ⟨⟨hLI, hss⟩, hsc⟩ := hinv
-  simp only at hLI hss hsc
+  obtain ⟨⟨hLI, hss⟩, hsc, _⟩ := hinv
+  simp only at hLI hss hsc hroom
   have halt : a < dst.length := by omega
   obtain ⟨y, hy⟩ : ∃ y, dst[a]? = some y := ⟨dst[a], List.getElem?_eq_getElem halt⟩
   have hy' : dst[srcStart + 1 + pre.length]? = some y := by rw [← ha]; exact hy
@@ -257,7 +292,7 @@ theorem midBody_step {song : Song} {m : SAMap} {srcT srcStart : Nat} {dst : List
       ∃ b', r = .yield b' ∧ MidInv song m srcT srcStart dst (pre ++ [a]) b' := by
     intro ld' lv' hnew hj
     obtain ⟨mt', sc', last', hr', hmt⟩ := jpSame_spec hj
-    refine ⟨_, hr', ⟨?_, ?_⟩, ?_⟩
+    refine ⟨_, hr', ⟨?_, ?_⟩, ?_, ?_⟩
     · rcases hmt with h | ⟨h1, h2, len0, L, hf, _, hml, h3⟩
       · rw [h]; exact hLI
       · right
@@ -266,7 +301,10 @@ theorem midBody_step {song : Song} {m : SAMap} {srcT srcStart : Nat} {dst : List
         have hz : dn' = 0 := by omega
         subst hz
         rw [h3]
-        refine ⟨by show srcStart < a; omega, hml, ⟨len0, hf⟩, ?_⟩
+        refine ⟨by show srcStart < a; omega, hml, ⟨len0, hf⟩, ?_, ?_⟩
+        rotate_left
+        · intro i h1i h2i
+          exact hroom hlv i h1i (by show i < srcStart + (pre.length + 1); have : i < a := h2i; omega)
         intro src hsrc
         rw [hdst] at hsrc
         cases hsrc
@@ -285,6 +323,9 @@ theorem midBody_step {song : Song} {m : SAMap} {srcT srcStart : Nat} {dst : List
         Option.bind_some]
       rw [hdn] at hs'
       simpa using hs'
+    · intro hlv'
+      obtain ⟨_, _, _, hlv⟩ := hnew hlv'
+      simpa using hroom hlv
   unfold midBody at hr
   simp only [hy, Option.map_some, Option.getD_some] at hr
   split at hr
@@ -325,6 +366,33 @@ theorem midBody_step {song : Song} {m : SAMap} {srcT srcStart : Nat} {dst : List
       simp [hd0]
     · rfl
 
+/-- the whole body of the same-track loop: the stack test on the event at `a - 1`, then `midBody` -/
+theorem midBodyS_step {song : Song} {m : SAMap} {srcT srcStart : Nat} {dst : List Event} {isBal : Nat → Bool}
+    (hdst : song.track? srcT = some dst) {pre post : List Nat} {a : Nat}
+    (hl : List.range' (srcStart + 1) (dst.length - (srcStart + 1)) = pre ++ a :: post)
+    {s : Match × Counter × Counter × Int × Bool} (hinv : MidInv song m srcT srcStart dst pre s)
+    {r : ForInStep (Match × Counter × Counter × Int × Bool)}
+    (hr : midBodyS song m (getSA m srcT) srcT srcStart srcT dst isBal a s = .ok r) :
+    ∃ b', r = .yield b' ∧ MidInv song m srcT srcStart dst (pre ++ [a]) b' := by
+  obtain ⟨ha, _⟩ := range'_split hl
+  unfold midBodyS at hr
+  split at hr
+  · cases hr
+  rename_i u hu
+  split at hr
+  · -- the stack test fails: `loop_valid = false`
+    have hf : ∀ (P : Prop), (false = true → P) := fun _ h => by cases h
+    exact midBody_step (s := (s.1, s.2.1, s.2.2.1, s.2.2.2.1, false)) hdst hl
+      ⟨hinv.1, hf _, hf _⟩ (hf _) hr
+  · rename_i hlt
+    refine midBody_step hdst hl hinv ?_ hr
+    intro hlv i h1 h2
+    by_cases hi : i < srcStart + pre.length
+    · exact hinv.2.2 hlv i h1 hi
+    · have : i = a - 1 := by omega
+      subst this
+      exact ⟨u, hu, by omega⟩
+
 theorem finalBody_spec {x : Nat × Nat} {mt : Match} {r : ForInStep Match} (h : finalBody x mt = .ok r) :
     ∃ mt', r = .yield mt' ∧ mt'.trackId = mt.trackId ∧ mt'.position = mt.position ∧
       mt'.loopPosition = mt.loopPosition ∧ mt'.loopLength = mt.loopLength ∧ (0 ≤ mt.subScore → 0 ≤ mt'.subScore) := by
@@ -347,6 +415,7 @@ theorem findMatch_spec {song : Song} {m : SAMap} {srcT srcStart : Nat} {mt : Mat
   | none => unfold findMatch at h; rw [hsrc] at h; simp [bind, Except.bind, throw, throwThe, MonadExceptOf.throw] at h
   | some src =>
     rw [findMatch_eq song m srcT srcStart src hsrc] at h
+    obtain ⟨bal, _, h⟩ := bind_ok h
     obtain ⟨s, hs, h⟩ := bind_ok h
     obtain ⟨mt2, h2, h⟩ := bind_ok h
     simp only [pure, Except.pure, Except.ok.injEq] at h
@@ -369,8 +438,9 @@ theorem findMatch_spec {song : Song} {m : SAMap} {srcT srcStart : Nat} {mt : Mat
           rw [← heq]; exact lookup_of_mem_nodup hnd (by simpa using hx)
         rw [heq] at hr1
         have := forIn_inv _ (MidInv song m srcT srcStart x.2) _ _ [] _ rfl
-          (⟨hb, fun _ => ⟨0, rfl, rfl⟩⟩ : MidInv song m srcT srcStart x.2 [] (b.1, b.2, [], 0, true))
-          (fun pre a post b hl hP r hr => midBody_step hdst hl hP hr) r1 hr1
+          (⟨hb, fun _ => ⟨0, rfl, rfl⟩, fun _ i h1 h2 => by simp at h2; omega⟩ :
+            MidInv song m srcT srcStart x.2 [] (b.1, b.2, [], 0, true))
+          (fun pre a post b hl hP r hr => midBodyS_step hdst hl hP hr) r1 hr1
         exact this.1
       · obtain ⟨r1, hr1, hr⟩ := bind_ok hr
         simp only [pure, Except.pure, Except.ok.injEq] at hr
@@ -386,9 +456,9 @@ theorem findMatch_spec {song : Song} {m : SAMap} {srcT srcStart : Nat} {mt : Mat
     obtain ⟨f1, f2, f3, f4, f5⟩ := hF
     refine ⟨f1, f2, f5, ?_⟩
     intro hne
-    rcases hQ.1 with h0 | ⟨g1, gm, g2, g3⟩
+    rcases hQ.1 with h0 | ⟨g1, gm, g2, g3, g4⟩
     · rw [f4] at hne; exact absurd h0 hne
     · exact ⟨by rw [f2, f3]; exact g1, by omega, by rw [f4]; exact gm,
-        by rw [f1, f2, f3, f4]; exact g2, by rw [f1, f2, f3]; exact g3⟩
+        by rw [f1, f2, f3, f4]; exact g2, by rw [f1, f2, f3]; exact g3, by rw [f1, f2, f3]; exact g4⟩
 
 end Ctrmml.OptSteps
